@@ -132,9 +132,14 @@ func c01Split(c *Ctx, a *sketchAnchors) {
 	}
 	paths, _ := exec(c, f, nil, 1)
 	isNegTotal := func(t *Term) bool { return isMethodCall(t, "TotalCount") && isRecvField(t.Args[0], a.negField) }
-	isRank := func(t *Term) bool {
+	var isRank func(t *Term) bool
+	isRank = func(t *Term) bool {
 		if t.isConst("0") {
 			return true // clamped
+		}
+		// math.Max(0, rank): the clamp written as an expression
+		if t.Op == "call" && t.Sym == "math.Max" && len(t.Args) == 2 {
+			return t.Args[0].isConst("0") && isRank(t.Args[1]) || t.Args[1].isConst("0") && isRank(t.Args[0])
 		}
 		if !t.isBin("*") {
 			return false
@@ -321,7 +326,7 @@ func c01KeyAtRank(c *Ctx, a *sketchAnchors) {
 			if len(l.Coef) >= 1 {
 				hasOff := false
 				for _, at := range l.Atoms {
-					if at.Op == "field" && at.Sym == "offset" && at.Args[0].isParam(0) {
+					if at.Op == "field" && at.Sym == dr.offset && at.Args[0].isParam(0) {
 						hasOff = true
 					}
 				}
@@ -329,7 +334,7 @@ func c01KeyAtRank(c *Ctx, a *sketchAnchors) {
 					okLoop = true
 				}
 			}
-			if r.Op == "field" && r.Sym == "maxIndex" && r.Args[0].isParam(0) {
+			if r.Op == "field" && r.Sym == dr.maxIndex && r.Args[0].isParam(0) {
 				okFall = true
 			}
 		}
